@@ -68,6 +68,10 @@ Theorem C13_binary64_rounding_twice_is_rounding_once : forall P x : R,
   0 < P -> bpow radix2 (-1000) <= P -> (Z.abs (RoundFloatP.ticks64 P x) <= 2 ^ 40)%Z ->
   RoundFloatP.rfloat RoundFloatP.rnd64 P (RoundFloatP.rfloat RoundFloatP.rnd64 P x) = RoundFloatP.rfloat RoundFloatP.rnd64 P x.
 Proof. exact RoundFloatP.binary64_idempotent. Qed.
+(* rounding is monotone at the binary64 level: every step of the computation is *)
+Theorem C13_binary64_monotone : forall P x y : R, 0 < P -> x <= y ->
+  RoundFloatP.rfloat RoundFloatP.rnd64 P x <= RoundFloatP.rfloat RoundFloatP.rnd64 P y.
+Proof. exact RoundFloatP.binary64_monotone. Qed.
 End Binary64.
 
 Example C13_nonvacuous :
@@ -86,3 +90,4 @@ Print Assumptions Binary64.C13_binary64_within_half_unit.
 Print Assumptions Binary64.C13_rounded_arithmetic_within_half_unit.
 Print Assumptions Binary64.C13_binary64_on_grid_bounds_unchanged.
 Print Assumptions Binary64.C13_binary64_rounding_twice_is_rounding_once.
+Print Assumptions Binary64.C13_binary64_monotone.
